@@ -16,10 +16,11 @@ import struct
 from vlib import core
 
 PID = 'C13'
+GENERATORS = [('lock2coq.py', 'Gen/LockGen.v')]
 META = {
-    'text': 'Theorems over a Gallina model of the shelve lock protocol (comms.Worker: acquire/poll/release/connectionLost/deferred stop, context.db_lock), for every number of connections and every event history: at most one holder and lock bit <=> a holder exists; "yours" is told only in the step that grants, and the holder keeps the lock until its own release/disconnect; a dropped holder frees the lock, a dropped waiter is never told or granted anything again; a waiting connection is granted a free lock at its next poll and a held lock is always freed by its holder\'s release or disconnect. Tied to the real Worker objects (real twisted LoopingCall on a fake clock, fake transports) by correspondence on every history of length <= 4 (2-3 clients) and seeded long histories with a disconnect injected at every step.',
-    'note': 'Trusted: Coq kernel; hand-written model Lock.v + driver drive_lock.py (fake transport honouring "no request after loseConnection/connectionLost", per-connection twisted Clock, queued reactor.callLater); Twisted runs one callback at a time and calls connectionLost once. Not covered: blocking client side (comms.acquire/release recv loop), the 3 s period, _do_copy thread. No axioms.',
-    'technique': 'Coq proof (inductive invariant) over an executable model + model/implementation correspondence (exhaustive small scope + seeded random)',
+    'text': 'Theorems over a Gallina model of the shelve lock protocol (comms.Worker: acquire/poll/release/connectionLost/deferred stop, context.db_lock), for every number of connections and every event history: at most one holder and lock bit <=> a holder exists; "yours" is told only in the step that grants, and the holder keeps the lock until its own release/disconnect; a dropped holder frees the lock, a dropped waiter is never told or granted anything again; a waiting connection is granted a free lock at its next poll and a held lock is always freed by its holder\'s release or disconnect. Source tie by translation (lock2coq.py on pyfrag): Worker._lock_db, _unlock_db, _get_db_lock_status, _do_acquire, _do_release, connectionLost, the acquire/release branches of do, the loseConnection rule of dataReceived, the flags of __init__ and context.lock_db/unlock_db are regenerated from the source on every run (Gen/LockGen.v); the model event loop spelled with the generated handlers is PROVED equal to Lock.step on every state and event, hence on every history (C13_step_is_source, C13_run_is_source, C13_mutex_is_source); validated on every run against the real Worker objects. Tied to the real Worker objects (real twisted LoopingCall on a fake clock, fake transports) by correspondence on every history of length <= 4 (2-3 clients) and seeded long histories with a disconnect injected at every step.',
+    'note': 'Trusted: Coq kernel; lock2coq.py translator (+ pyfrag.py, pyfrag_fx.py; LoopingCall.start, reactor.callLater, _send, loseConnection declared at the top of the script; lock-view bookkeeping and logging neutral); the Twisted delivery discipline hand-written in LockGenEq.gstep (delivery only to open connections, LoopingCall fires while running, an escaped exception drops the connection, connectionLost once, the stop timer); model Lock.v + driver drive_lock.py (fake transport honouring "no request after loseConnection/connectionLost", per-connection twisted Clock, queued reactor.callLater); Twisted runs one callback at a time and calls connectionLost once. Not covered: blocking client side (comms.acquire/release recv loop), the 3 s period, _do_copy thread. No axioms.',
+    'technique': 'Coq proof (inductive invariant) over an executable model + handlers translated from the source and proved to be the model step + model/implementation correspondence (exhaustive small scope + seeded random)',
 }
 
 FP = [('Python/dawgie/db/shelve/comms.py',
@@ -199,6 +200,65 @@ def model_eval(ctx, hs):
     return out
 
 
+
+# ---------------------------------------------------------------------------
+# the source tie by translation: tools/translate/lock2coq.py -> Gen/LockGen.v,
+# Proofs/LockGenEq.v (gstep = Lock.step), Props/C13.v C13_*_is_source
+# ---------------------------------------------------------------------------
+GEN_PRE = '''
+Definition gx (st : lstate) (x : xevent) : lstate * list lout :=
+  match x with Ev e => LockGenEq.gstep st e | Reopen => (st, []) end.
+Fixpoint gtrace (st : lstate) (xs : list xevent) : list (lstate * list lout) :=
+  match xs with [] => [] | x :: r => let '(s1, o1) := gx st x in (s1, o1) :: gtrace s1 r end.
+Definition obs_gtrace (n : nat) (xs : list xevent) := map obs_step (gtrace (linit n) xs).
+'''
+
+
+def lock_generate(ctx):
+    ok, msg = ctx.generate('lock2coq.py', 'Gen/LockGen.v')
+    ctx.trust('translator tools/translate/lock2coq.py (+ pyfrag.py, pyfrag_fx.py: python ast -> Gallina, '
+              'fail closed; LoopingCall.start, reactor.callLater, _send and loseConnection are declared '
+              'at the top of the script, lock-view bookkeeping and logging are neutral; validated on '
+              'every run against the real Worker objects on a sample of the histories; the generated '
+              'handlers are PROVED to be the step function of Model/Lock.v, coq/Proofs/LockGenEq.v)')
+    fps = ctx.cov.setdefault('translated_fingerprints', {})
+    fps.update(core.fingerprint('Python/dawgie/db/shelve/comms.py',
+                                ['Worker.__init__', 'Worker.connectionLost', 'Worker.dataReceived', 'Worker.do',
+                                 'Worker._do_acquire', 'Worker._do_release', 'Worker._get_db_lock_status',
+                                 'Worker._lock_db', 'Worker._unlock_db']))
+    fps.update(core.fingerprint('Python/dawgie/context.py', ['lock_db', 'unlock_db']))
+    return {'ok': ok, 'msg': msg}
+
+
+def lock_validate(ctx, g, hs, obs):
+    """generated handlers (vm_compute of LockGenEq.gstep) vs the real Worker objects, on the
+    drop-/reopen-injected scripts, a slice of the exhaustive scope and of the random histories"""
+    if not g['ok']:
+        return None
+    rng = random.Random('%s:C13:gen' % ctx.seed)
+    idx = [i for i, h in enumerate(hs) if h['kind'].endswith('injected')]
+    rest = [i for i, h in enumerate(hs) if not h['kind'].endswith('injected')]
+    idx += rng.sample(rest, min(len(rest), ctx.n(400, 4000)))
+    exprs, step = [], 100
+    for k in range(0, len(idx), step):
+        part = [hs[i] for i in idx[k:k + step]]
+        items = ';'.join('(%d, [%s])' % (h['n'], ';'.join(ev_term(e) for e in h['events'])) for h in part)
+        exprs.append('map (fun p => obs_gtrace (fst p) (snd p)) [%s]' % items)
+    try:
+        res = ctx.coq_eval(['DV.Model.Lock', 'DV.Proofs.LockGenEq'], exprs, preamble=GEN_PRE,
+                           z_scope=False, chunk=4)
+    except core.CoqEvalError as e:
+        return {'history': None, 'python': '', 'generated': 'Gen/LockGen.v does not evaluate: %s' % (e.args[1][-600:],)}
+    flat = [[canon_model(s) for s in tr] for r in res for tr in r]
+    ctx.note('source_tie_lock', {'histories_compared': len(flat), 'translator_ok': True})
+    for i, m in zip(idx, flat):
+        io = [canon_impl(s) for s in obs[i]]
+        if io != m:
+            k = [a != b for a, b in zip(io, m)].index(True) if len(io) == len(m) else -1
+            return {'history': {'n': hs[i]['n'], 'events': hs[i]['events']}, 'step': k,
+                    'python': repr(io[k] if k >= 0 else io), 'generated': repr(m[k] if k >= 0 else m)}
+    return None
+
 # ---------------------------------------------------------------------------
 # the blocking client: comms.acquire / comms.release on a fake socket
 # ---------------------------------------------------------------------------
@@ -368,7 +428,12 @@ def run(ctx):
         oracle(ctx, h, o)
         ctx.count(evaluations=1, nontrivial_keys=['a', 'b'])
         return
+    g = lock_generate(ctx)
     r = ctx.coq_props()
+    if not g['ok']:
+        # the previous Gen/LockGen.v is still in place: what was proved is not
+        # about the source of today
+        ctx.cov['discharged'] = 0
     hs = histories(ctx)
     impl = ctx.harness('drive_lock.py', {'histories': [{'n': h['n'], 'events': h['events']} for h in hs]})
     obs = impl['histories']
@@ -397,6 +462,19 @@ def run(ctx):
                    % (h['n'], h['events'], k, io, m),
                    {'source': 'correspondence', 'history': {'n': h['n'], 'events': h['events']},
                     'step': k, 'expected': repr(m), 'observed': repr(io)})
+    # the source tie: translator validation (generated handlers vs the real
+    # Worker objects); a refused source or a broken equality proof is reported
+    # only when the oracle above found no failing input on 14 000+ histories
+    bad = lock_validate(ctx, g, hs, obs)
+    if not g['ok']:
+        ctx.note('source_tie_lock', {'translator_ok': False, 'message': g['msg'][-400:]})
+        if ctx.nviol == 0:
+            ctx.broken('translator lock2coq.py refuses dawgie/db/shelve/comms.py', g['msg'],
+                       {'source': 'translator'})
+    elif bad and ctx.nviol == 0:
+        ctx.broken('translator validation: generated lock handlers disagree with comms.Worker',
+                   repr(bad), {'source': 'translator-validation', 'history': bad.get('history'),
+                               'step': bad.get('step'), 'expected': bad['generated'], 'observed': bad['python']})
     run_client(ctx)
     if not r['ok']:
         ctx.broken('theorem/file %s' % r['failing'], r['log'],
